@@ -244,6 +244,10 @@ def build_variant(lib, jv, arena, const_keys, string_refs):
     return printing.build_tree(lib, jv)
 
 
+def _containers(jv):
+    return [n for n in model.walk_jv(jv) if n[0] in "AO" and n[1]]
+
+
 class C12(Prop):
     ID = "C12"
     RULE = ("pairs (a, b): a = generated tree with distinct keys per object (distinct after ASCII folding), b derived from a by one of 19 "
@@ -254,7 +258,7 @@ class C12(Prop):
             "non-trivial = b is a permutation or single-point mutation of a tree with an object of >= 2 members; distinct by pair hash")
     ASSUMPTIONS = ["number perturbations strictly between 1 and 4 ulp are not generated (razor's edge of the relative tolerance)",
                    "pairs of two distinct non-finite numbers are not generated"]
-    REQUIRED_CLASSES = ["mut:" + m for m in MUTATIONS] + ["expect_equal", "expect_different", "ci_differs_from_cs", "const_keys", "string_refs", "parsed", "deep_tree"]
+    REQUIRED_CLASSES = ["mut:" + m for m in MUTATIONS] + ["expect_equal", "expect_different", "ci_differs_from_cs", "const_keys", "string_refs", "parsed", "deep_tree", "reference_view_checked", "invalid_null_string_checked"]
 
     def budget(self, tier):
         return {"workers": 14, "examples": 1500 if tier == "quick" else 30000}
@@ -274,6 +278,37 @@ class C12(Prop):
         tree = st.tuples(gens.chance(60), tree, deep).map(lambda t: t[2] if t[0] else t[1])
         return st.fixed_dictionaries({"a": tree, "other": tree, "mutation": st.sampled_from(MUTATIONS),
                                       "rseed": st.integers(0, 2 ** 31), "variant": st.integers(0, 5)})
+
+    def reference_views(self, lib, stats, a, rnd):
+        """ownership flags must not matter: a reference container that shares the tail of another container's member list
+        denotes the same value as a plain container with those members"""
+        conts = _containers(a)
+        if not conts or model.depth_of(a) > 100:
+            return
+        c = rnd.choice(conts)
+        members = c[1]
+        lead = rnd.choice([["n"], ["S", b"lead"], ["A", []], ["N", 5.0], ["O", []]])
+        if c[0] == "A":
+            host_jv = ["A", [lead] + members]
+        else:
+            host_jv = ["O", [[b"\x01lead", lead]] + members]
+        host = printing.build_tree(lib, host_jv)
+        plain = printing.build_tree(lib, c)
+        first = lib.cJSON_GetArrayItem(host, 1)
+        ref = (lib.cJSON_CreateArrayReference if c[0] == "A" else lib.cJSON_CreateObjectReference)(first)
+        try:
+            for cs in (1, 0):
+                if c[0] == "O" and not cs and len(set(model.fold(k) for k, _ in members)) != len(members):
+                    continue
+                if not lib.cJSON_Compare(ref, plain, cs) or not lib.cJSON_Compare(plain, ref, cs):
+                    raise Violation("a reference %s sharing the tail of another container's list compares unequal to a plain container with the "
+                                    "same members (case_sensitive=%d): %s" % ("array" if c[0] == "A" else "object", cs, model.emit_text(c)[:200]),
+                                    key="reference-view")
+            stats.cls("reference_view_checked")
+        finally:
+            lib.cJSON_Delete(ref)
+            lib.cJSON_Delete(host)
+            lib.cJSON_Delete(plain)
 
     def run_case(self, lib, case, stats):
         rnd = random.Random(case["rseed"])
@@ -383,6 +418,22 @@ class C12(Prop):
                 stats.cls("invalid_type_checked")
             if lib.dump(pa)[0] != da or lib.dump(pb)[0] != db:
                 raise Violation("Compare modified one of its arguments", key="modified")
+            self.reference_views(lib, stats, a, rnd)
+            # invalid items: strings without a value (never equal to anything, not even to another such item)
+            if case["rseed"] % 5 == 0:
+                n1 = lib.cJSON_CreateStringReference(None)
+                n2 = lib.cJSON_CreateStringReference(None)
+                w1 = lib.cJSON_CreateArray()
+                w2 = lib.cJSON_CreateArray()
+                lib.cJSON_AddItemToArray(w1, n1)
+                lib.cJSON_AddItemToArray(w2, n2)
+                try:
+                    if lib.cJSON_Compare(n1, n2, 1) or lib.cJSON_Compare(n2, n1, 0) or lib.cJSON_Compare(w1, w2, 1):
+                        raise Violation("two distinct string items without a value (invalid) compare equal", key="invalid-null-string")
+                    stats.cls("invalid_null_string_checked")
+                finally:
+                    lib.cJSON_Delete(w1)
+                    lib.cJSON_Delete(w2)
         finally:
             lib.cJSON_Delete(pa)
             lib.cJSON_Delete(pb)
